@@ -214,6 +214,36 @@ def _check_result(res, site, spec, case):
         raise Violation("%s silently returned None" % site, site=site, kind="returned_none")
 
 
+_SHAPES = {}
+
+
+def _shape(o, depth=0):
+    if isinstance(o, (tuple, list)):
+        if depth < 2:
+            return (type(o).__name__, len(o))
+        return type(o).__name__
+    return type(o).__name__
+
+
+def _check_shape(res, site, args, kwargs):
+    """'Returns values of the documented type and arity': all results a callable gives for
+    arguments of the same types (and the same flag / string values) have one shape."""
+    if res is None:
+        return
+    key = (site, tuple(type(a).__name__ if not isinstance(a, (bool, str)) else repr(a) for a in args),
+           tuple(sorted((k, type(v).__name__) for k, v in kwargs.items())))
+    sh = _shape(res)
+    old = _SHAPES.setdefault(key, sh)
+    if old != sh and not (set([old, sh]) <= set(["int", "float"])):
+        raise Violation("%s returned a %r for these arguments but a %r for other arguments of the same "
+                        "types: the arity / type of the result depends on the values" % (site, sh, old),
+                        site=site, kind="result_shape")
+    # a fixed-arity family: the fits document (a, b) / (a, b, c)
+    if site.endswith("general_fitting") and sh != ("tuple", 3):
+        raise Violation("%s returned %r; the documented result is the tuple of the three coefficients"
+                        % (site, res), site=site, kind="result_shape")
+
+
 def body_call(case):
     key = case.get("key") or case["f"]
     spec = API[key] if key in API else API_BY_QUAL[case["f"]]
@@ -241,6 +271,7 @@ def body_call(case):
                             kind="self_mutated")
         raise Violation("%s changed the object it was called on" % site, site=site, kind="self_mutated")
     _check_result(res, site, spec, case)
+    _check_shape(res, site, args, kwargs)
     r1 = freeze(res)
     # interleave an unrelated call, then repeat
     other = case.get("other")
@@ -525,10 +556,15 @@ def body_history(case):
                                 % (step_no, step["op"], idx, e.jde(), s), site="history:" + step["op"],
                                 kind="shared_or_mutated_state", step=step_no)
         for idx, (ip, s) in enumerate(zip(IP, sIP)):
-            if list(ip._x) != sorted(s[0]) or len(ip._y) != len(s[1]):
-                raise Violation("after step %d (%s) pooled Interpolation #%d changed"
-                                % (step_no, step["op"], idx), site="history:" + step["op"],
-                                kind="shared_or_mutated_state", step=step_no)
+            fresh = Interpolation(list(s[0]), list(s[1]))
+            lo, hi = min(s[0]), max(s[0])
+            pts = [lo + (hi - lo) * u for u in (0.0, 0.137, 0.5, 0.861, 1.0)]
+            got = (repr(ip), len(ip), [ip(u) for u in pts], [ip.derivative(u) for u in pts])
+            want = (repr(fresh), len(fresh), [fresh(u) for u in pts], [fresh.derivative(u) for u in pts])
+            if got != want:
+                raise Violation("after step %d (%s) pooled Interpolation #%d behaves like %r, a fresh object "
+                                "with its table behaves like %r" % (step_no, step["op"], idx, got, want),
+                                site="history:" + step["op"], kind="shared_or_mutated_state", step=step_no)
         # observational equivalence with fresh objects of the same value (every view: a view that
         # caches, or a mutator that forgets to invalidate, shows here)
         for idx, (a, sv) in enumerate(zip(A, sA)):
@@ -670,10 +706,11 @@ def body_history(case):
                                 "object with the same table" % ("minmax" if step.get("d") else "root", outs[0], outs[1]),
                                 site="history:interp_solve", kind="history_dependent", step=n)
         elif op == "interp_set":
-            xs2 = [v + 0.5 for v in sIP[0][0]]
-            ys2 = [v * v - x for v, x in zip(sIP[0][1], xs2)] if step.get("d") else list(sIP[0][1])
-            IP[0].set(xs2, list(ys2))
-            sIP[0] = (xs2, list(ys2))
+            w = step.get("i", 0) % len(IP)
+            xs2 = [v + 0.5 for v in sIP[w][0]]
+            ys2 = [v * v - x for v, x in zip(sIP[w][1], xs2)] if step.get("d") else [v + 1.0 for v in sIP[w][1]]
+            IP[w].set(xs2, list(ys2))
+            sIP[w] = (xs2, list(ys2))
             nmut += 1
         elif op == "interp_copy":
             IP.append(Interpolation(IP[0]))
@@ -946,7 +983,7 @@ def history_cases():
         st.builds(lambda i, j: {"op": "epoch_set", "i": i, "jde": j}, idx, jde),
         st.builds(lambda i, j: {"op": "epoch_set_from", "i": i, "j": j}, idx, idx),
         st.builds(lambda x, d: {"op": "interp_call", "x": x, "d": d}, st.floats(0, 1), st.booleans()),
-        st.builds(lambda d: {"op": "interp_set", "d": d}, st.booleans()), st.just({"op": "interp_copy"}),
+        st.builds(lambda d, i: {"op": "interp_set", "d": d, "i": i}, st.booleans(), idx), st.just({"op": "interp_copy"}),
         st.builds(lambda d: {"op": "fit", "d": d}, st.booleans()),
         st.builds(lambda d: {"op": "interp_solve", "d": d}, st.booleans()),
         st.builds(lambda f, i, j, k: {"op": "pure", "fn": f, "i": i, "j": j, "k": k},
